@@ -19,8 +19,9 @@ Limits == {<<"none", "none">>, <<"1", "none">>, <<"2", "none">>, <<"1", "1">>}
 
 Join2 == {[shape |-> "join2", kind |-> k, where |-> w, tgt |-> t, order |-> o, lim |-> l] :
             k \in Kinds, w \in Wheres, t \in Targets, o \in Orders, l \in Limits}
-Join3 == {[shape |-> "join3", kind |-> k, kind2 |-> k2, on3 |-> o3, where |-> w, tgt |-> "star", order |-> "none", lim |-> <<"none", "none">>] :
-            k \in {"inner", "left"}, k2 \in {"inner", "left", "right"}, o3 \in {"t3b=t1b", "t3c=t2c", "t3b=t2a"},
+Join3 == {[shape |-> "join3", kind |-> k, kind2 |-> k2, on12 |-> o12, on3 |-> o3, where |-> w, tgt |-> "star", order |-> "none", lim |-> <<"none", "none">>] :
+            k \in {"inner", "left"}, k2 \in {"inner", "left", "right"}, o12 \in {"t1a=t2a", "t2c=t1a", "t2c=t1b"},
+            o3 \in {"t3b=t1b", "t3c=t2c", "t3b=t2a", "t3c=t2a"},
             w \in {"none", "t1b=1", "t2c=1", "t3c=1"}}
 InSub == {[shape |-> "insub", neg |-> n, inner |-> i, where |-> w, tgt |-> "star", order |-> o, lim |-> l] :
             n \in BOOLEAN, i \in {"none", "c=1", "c-null"}, w \in {"none", "b=1"}, o \in {"none", "b"}, l \in {<<"none", "none">>, <<"1", "none">>}}
